@@ -286,6 +286,7 @@ type ProposeCtx struct {
 	// validators touched by operations of this block (avoid double use)
 	used          map[common.ValidatorIndex]bool
 	removed       int
+	forceOutside  bool         // the next manufactured slashing of an exiting validator is dated outside its window (no coin)
 	forcePreFork  bool         // the next manufactured slashing is dated before the state's last fork epoch
 	evidenceEpoch common.Epoch // override of the epoch the next manufactured attester slashing is dated at
 	Ops           map[string]int
@@ -354,7 +355,7 @@ func (p *ProposeCtx) AddProposerSlashing(v common.ValidatorIndex) bool {
 	}
 	if f := p.Flats[v]; p.forcePreFork {
 		// keep the pre-fork date
-	} else if f.WithdrawableEpoch != common.Epoch(FarFuture) && c.Rng.Chance(75) {
+	} else if f.WithdrawableEpoch != common.Epoch(FarFuture) && (c.Rng.Chance(75) || p.forceOutside) {
 		// exit already initiated, still slashable NOW: the double-signed headers are for a slot at/after the withdrawable epoch
 		// (the header slot is free data; only the signature domain looks at its epoch)
 		hslot = common.Slot(f.WithdrawableEpoch+common.Epoch(c.Rng.Intn(3)))*c.Spec.SLOTS_PER_EPOCH + common.Slot(c.Rng.Intn(int(c.Spec.SLOTS_PER_EPOCH)))
@@ -426,7 +427,7 @@ func (p *ProposeCtx) AddAttesterSlashing(vs []common.ValidatorIndex, surround bo
 		p.evidenceEpoch = fe - 1
 		p.Ops["aslash_pre_fork_target"]++
 	} else if len(set) == 1 {
-		if f := p.Flats[set[0]]; f.WithdrawableEpoch != common.Epoch(FarFuture) && p.slashable(set[0]) && c.Rng.Chance(75) {
+		if f := p.Flats[set[0]]; f.WithdrawableEpoch != common.Epoch(FarFuture) && p.slashable(set[0]) && (c.Rng.Chance(75) || p.forceOutside) {
 			p.evidenceEpoch = f.WithdrawableEpoch + 1
 			p.Ops["aslash_evidence_epoch_outside_window"]++
 		}
@@ -1668,11 +1669,18 @@ func (c *Chain) slashExiting(p *ProposeCtx) {
 		}
 		before := p.Ops["pslash_evidence_epoch_outside_window"] + p.Ops["aslash_evidence_epoch_outside_window"]
 		ok := false
-		if c.Vars[key] == 0 {
-			ok = p.AddProposerSlashing(v)
+		p.forceOutside = true
+		// proposer and attester slashings alternate over the whole chain (exiting validators are scarce in some forks)
+		if c.Vars["slash_exiting_aslash"] >= c.Vars["slash_exiting_pslash"] {
+			if ok = p.AddProposerSlashing(v); ok {
+				c.Vars["slash_exiting_pslash"]++
+			}
 		} else {
-			ok = p.AddAttesterSlashing([]common.ValidatorIndex{v}, c.Rng.Bool())
+			if ok = p.AddAttesterSlashing([]common.ValidatorIndex{v}, c.Rng.Bool()); ok {
+				c.Vars["slash_exiting_aslash"]++
+			}
 		}
+		p.forceOutside = false
 		if ok && p.Ops["pslash_evidence_epoch_outside_window"]+p.Ops["aslash_evidence_epoch_outside_window"] > before {
 			c.Vars[key]++
 		}
